@@ -1067,12 +1067,14 @@ class Config:  # pylint: disable=too-many-instance-attributes
         if isinstance(field, Field):
             try:
                 value = field.validate(self, value)
+                # a field may also refuse the value when it is stored (a virtual field without a
+                # setter and an instance method are read-only, a setter may raise)
+                field.__setval__(self, value)
             except ValidationError:
                 raise
             except Exception as err:
                 raise ValidationError(self, field, err) from err
             else:
-                field.__setval__(self, value)
                 self._default_value_keys.discard(key)
                 return value
 
